@@ -68,6 +68,30 @@ func init() {
 				}
 				// everything that may contain spaces or odd bytes travels hex-encoded
 				return fmt.Sprintf("ok canon=%s det=%d again=%s proto=%s host=%s", hx(first), len(distinct), hx(again), hx(proto), hx(host))
+			case "normseq":
+				// one shared parent object, several references normalised against it in sequence
+				parent := &models.URL{Raw: str(in, "parent")}
+				if err := parent.Parse(); err != nil {
+					return "err:bad-parent"
+				}
+				before := parent.String()
+				var outs []string
+				for _, e := range list(in, "raws") {
+					raw, _ := e.(string)
+					u := &models.URL{Raw: raw}
+					if err := preprocessor.NormalizeURL(u, parent); err != nil {
+						outs = append(outs, "!")
+						continue
+					}
+					outs = append(outs, hx(u.String()))
+				}
+				after := &models.URL{Raw: parent.Raw}
+				afterS := "!"
+				if parent.GetParsed() != nil {
+					afterS = parent.GetParsed().String()
+				}
+				_ = after
+				return fmt.Sprintf("seq=%s parent-before=%s parent-after=%s", strings.Join(outs, ","), hx(before), hx(afterS))
 			case "query":
 				q, _ := hex.DecodeString(str(in, "qhex"))
 				distinct := map[string]bool{}
